@@ -108,6 +108,14 @@ func C10Base(t *rapid.T) *world.Scenario {
 			if st.Req.Uncond.Body.Len < 30 {
 				st.Req.Uncond.Body.Len = 30
 			}
+			if Pct(t, lbl+"-decl", 30) {
+				// the origin announced far more than it sent before the stream broke (or ended)
+				st.Req.Uncond.DeclLen = Pick(t, lbl+"-decllen", int64(1)<<20, 1<<31, 1<<32+5, 1<<40, 1<<62, 1<<63-1, 1<<63-600)
+				st.Req.Uncond.Shape = "cl"
+				if Pct(t, lbl+"-declclean", 30) {
+					st.Req.Uncond.Body.FailAt = 0
+				}
+			}
 			if Pct(t, lbl+"-failhold", 40) {
 				// the caller reads what there is of the body only later, after other responses
 				// have passed through the cache
